@@ -10,7 +10,7 @@
    counter through a protocol object that is in state p (for Compact: last
    field id and field-id stack, left there by whatever was written before). *)
 From Coq Require Import ZArith List Bool Lia.
-From Tally Require Import Base.Obs Model.Varint Model.Thrift
+From Tally Require Import Base.ObsCore Model.Varint Model.Thrift
   Proof.VarintP Proof.ThriftP Proof.ThriftCompactP Proof.ThriftBinaryP Proof.ThriftC16P.
 Import ListNotations.
 Open Scope Z_scope.
